@@ -419,6 +419,26 @@ class CallsMixin:
             if not vals:
                 return V(Ty('Set', (Ty('Bottom'),)), None, py=set())
             return self.to_set(vals[0], st)
+        if name == 'sorted' and len(vals) == 1 and not (node is not None and node.keywords):
+            # sorted(list of numbers): a fresh list characterised by facts that hold for every sorted permutation --
+            # same length, ascending, the same elements (with witness positions both ways), pairwise distinct if the
+            # argument is. (Multiplicities beyond that are not stated: weaker than "is a permutation", never wrong.)
+            v = self.to_list(vals[0], st)
+            et = v.ty.args[0]
+            if et.kind not in ('Int', 'Real'):
+                raise Unsupported(f'sorted of {v.ty!r}')
+            ln, arr = self.seq_parts(v, st)
+            r = z3.Const(fresh_name('sorted'), z3.ArraySort(z3.IntSort(), sort_of(et)))
+            a, b_ = z3.Int(fresh_name('a')), z3.Int(fresh_name('b'))
+            to_src = z3.Function(fresh_name('srcpos'), z3.IntSort(), z3.IntSort())
+            to_dst = z3.Function(fresh_name('dstpos'), z3.IntSort(), z3.IntSort())
+            inr = lambda q: z3.And(0 <= q, q < ln)
+            st.pc.append(z3.ForAll([a, b_], z3.Implies(z3.And(inr(a), inr(b_), a <= b_), z3.Select(r, a) <= z3.Select(r, b_))))
+            st.pc.append(z3.ForAll([a], z3.Implies(inr(a), z3.And(inr(to_src(a)), T.Sel(arr, to_src(a)) == z3.Select(r, a)))))
+            st.pc.append(z3.ForAll([a], z3.Implies(inr(a), z3.And(inr(to_dst(a)), z3.Select(r, to_dst(a)) == T.Sel(arr, a)))))
+            st.pc.append(z3.Implies(z3.ForAll([a, b_], z3.Implies(z3.And(inr(a), inr(b_), a != b_), T.Sel(arr, a) != T.Sel(arr, b_))),
+                                    z3.ForAll([a, b_], z3.Implies(z3.And(inr(a), inr(b_), a != b_), z3.Select(r, a) != z3.Select(r, b_)))))
+            return self.mk_list(st, et, ln, r)
         if name == 'defaultdict':
             if len(node.args) == 1 and isinstance(node.args[0], ast.Name) and node.args[0].id == 'int':
                 # a total map with value 0 everywhere (reads of absent keys give 0); membership / len / iteration of
